@@ -18,7 +18,8 @@ import (
 // is again a well-formed program (that is what makes shrinking by deletion
 // work).
 type Prog struct {
-	Steps []Step `json:"steps"`
+	Steps     []Step `json:"steps"`
+	IllFormed bool   `json:"ill_formed,omitempty"`
 }
 
 // Step is one construction or editing step.
@@ -53,6 +54,12 @@ func (o Obs) String() string {
 }
 
 type genParams struct {
+	// IllFormed allows steps that are legal uses of the API but give IR that LLVM
+	// rejects (two values sharing a name, an operand replaced by a value of
+	// another type, address spaces assigned after construction). They matter for
+	// C14 (whatever is printed must not depend on earlier observations); module
+	// sources for C13/C19 stay well-formed.
+	IllFormed bool
 	Steps     int
 	Metadata  bool // allow metadata definitions and attachments
 	BlockAddr bool // allow blockaddress constants of blocks in global initialisers
@@ -67,13 +74,15 @@ var namePool = []string{"", "", "", "x", "y", "tmp", "val", "res", "a b", "p.q",
 
 // genProgram draws a program.
 func genProgram(r *rng, p genParams) *Prog {
-	pr := &Prog{}
+	pr := &Prog{IllFormed: p.IllFormed}
 	add := func(s Step) { pr.Steps = append(pr.Steps, s) }
 	sel := func() int { return r.intn(1 << 12) }
 	// phi (nested operand structure) and call (void/non-void) are drawn more often.
 	instKind := func() int {
 		k := r.intn(nInstKinds + 8)
 		switch {
+		case k >= nInstKinds+6:
+			return 33 // struct getelementptr (falls back to an alloca of the struct)
 		case k >= nInstKinds+3:
 			return 18
 		case k >= nInstKinds:
@@ -119,7 +128,11 @@ func genProgram(r *rng, p genParams) *Prog {
 		case x < 88:
 			add(Step{Op: "setop", K: r.intn(6), A: sel(), B: sel(), C: sel(), D: sel(), P: sel()})
 		case x < 90:
-			add(Step{Op: "setinc", K: r.intn(3), A: sel(), B: sel(), C: sel(), D: sel(), P: sel()})
+			if r.chance(1, 2) {
+				add(Step{Op: "setinc", K: r.intn(3), A: sel(), B: sel(), C: sel(), D: sel(), P: sel()})
+			} else {
+				add(Step{Op: "setgep", A: sel(), B: sel()})
+			}
 		case x < 95:
 			add(Step{Op: "remove", A: sel(), B: sel(), C: sel()})
 		default:
@@ -144,12 +157,22 @@ type machine struct {
 	gnames  map[string]bool
 	uses    map[value.Value]int
 	ops     map[interface{}][]value.Value
+	// vtype records the type of every value the builder created, so that the
+	// builder itself never calls Type() on an instruction (that would be an
+	// observation, made identically in the reference run, and would hide
+	// anything computed lazily at the first Type() query).
+	vtype map[value.Value]types.Type
+	// born is the step at which an instruction result came into being; operand
+	// replacement only goes to OLDER values (phi excepted), so no cycle of
+	// non-phi instructions is ever built.
+	born    map[value.Value]int
 	applied int
 	skipped int
 	stepNo  int
 	probes  map[string]int64
 	// printedOnce is set by print observers; used for probes only.
 	printedOnce bool
+	illFormed   bool
 }
 
 type mfunc struct {
@@ -158,7 +181,7 @@ type mfunc struct {
 }
 
 func newMachine() *machine {
-	return &machine{m: ir.NewModule(), gnames: map[string]bool{}, uses: map[value.Value]int{}, ops: map[interface{}][]value.Value{}, probes: map[string]int64{}}
+	return &machine{m: ir.NewModule(), gnames: map[string]bool{}, uses: map[value.Value]int{}, ops: map[interface{}][]value.Value{}, probes: map[string]int64{}, vtype: map[value.Value]types.Type{}, born: map[value.Value]int{}}
 }
 
 var (
@@ -207,7 +230,7 @@ func (mc *machine) uniq(scope map[string]bool, name string) string {
 	if name == "" {
 		return ""
 	}
-	if scope[name] && mc.stepNo%6 == 5 {
+	if scope[name] && mc.illFormed && mc.stepNo%6 == 5 {
 		// Occasionally two values of one scope share a name (the API does not
 		// prevent it; the printed IR is then invalid, but must still not depend
 		// on when it was looked at).
@@ -240,21 +263,38 @@ func (mc *machine) block(f *mfunc, sel int) *ir.Block {
 func (mc *machine) values(f *mfunc, t types.Type) []value.Value {
 	var out []value.Value
 	for _, p := range f.f.Params {
-		if p.Type().Equal(t) {
+		if mc.typeOf(p).Equal(t) {
 			out = append(out, p)
 		}
 	}
 	for _, b := range f.f.Blocks {
 		for _, in := range b.Insts {
-			if v, ok := in.(value.Value); ok && v.Type().Equal(t) {
+			if v, ok := in.(value.Value); ok && mc.typeOf(v).Equal(t) {
 				out = append(out, v)
 			}
 		}
-		if v, ok := b.Term.(*ir.TermInvoke); ok && v.Type().Equal(t) {
+		if v, ok := b.Term.(*ir.TermInvoke); ok && mc.typeOf(v).Equal(t) {
 			out = append(out, v)
 		}
 	}
 	return out
+}
+
+// typeOf returns the type the builder knows a value to have (without asking an
+// instruction).
+func (mc *machine) typeOf(v value.Value) types.Type {
+	if t, ok := mc.vtype[v]; ok {
+		return t
+	}
+	switch v := v.(type) {
+	case *ir.Param:
+		return v.Typ
+	case *ir.Block:
+		return types.Label
+	case constant.Constant:
+		return v.Type()
+	}
+	return v.Type()
 }
 
 func (mc *machine) konst(t types.Type, sel int) value.Value {
@@ -332,6 +372,14 @@ func (mc *machine) unuse(user interface{}) {
 // newInst builds (without inserting) an instruction of kind k for function f.
 func (mc *machine) newInst(f *mfunc, k, c, d int) ir.Instruction {
 	var in ir.Instruction
+	var calleeRet types.Type
+	defer func() {
+		// Record the result type the builder intends (never ask the instruction).
+		if v, ok := in.(value.Value); ok {
+			mc.vtype[v] = resultTypeOfKind(in, k%nInstKinds, d, calleeRet)
+			mc.born[v] = mc.stepNo
+		}
+	}()
 	switch k % nInstKinds {
 	case 0:
 		x, y := mc.pick(f, tI32, c), mc.pick(f, tI32, d)
@@ -377,9 +425,10 @@ func (mc *machine) newInst(f *mfunc, k, c, d int) ir.Instruction {
 		callee := mc.fn(c)
 		var args []value.Value
 		for i, p := range callee.f.Params {
-			args = append(args, mc.pick(f, p.Type(), d+i))
+			args = append(args, mc.pick(f, p.Typ, d+i))
 		}
 		in = ir.NewCall(callee.f, args...)
+		calleeRet = callee.f.Sig.RetType
 		mc.use(in, append([]value.Value{callee.f}, args...)...)
 	case 12:
 		x := mc.pick(f, tI32, c)
@@ -505,6 +554,55 @@ func (mc *machine) newInst(f *mfunc, k, c, d int) ir.Instruction {
 	return in
 }
 
+// isStructGEP reports whether user is a getelementptr into tPair built by kind 33.
+func isStructGEP(user interface{}) bool {
+	g, ok := user.(*ir.InstGetElementPtr)
+	return ok && g.ElemType != nil && g.ElemType.Equal(tPair) && len(g.Indices) == 2
+}
+
+// resultTypeOfKind is the result type of an instruction of generator kind k.
+func resultTypeOfKind(in ir.Instruction, k, d int, calleeRet types.Type) types.Type {
+	if a, ok := in.(*ir.InstAlloca); ok {
+		return types.NewPointer(a.ElemType)
+	}
+	switch k {
+	case 0, 1, 3, 6, 8, 13, 18, 23, 24, 26, 29, 30:
+		return tI32
+	case 2, 4, 12, 20, 31:
+		return tI64
+	case 5, 17, 22:
+		return tI1
+	case 9, 10:
+		return types.Void
+	case 11:
+		if calleeRet != nil {
+			return calleeRet
+		}
+		return types.Void
+	case 14:
+		return tP32
+	case 15, 16, 21:
+		return tF64
+	case 19:
+		return tP8
+	case 25:
+		return tPair
+	case 27:
+		if d%2 == 0 {
+			return tI32
+		}
+		return tI1
+	case 28:
+		return tVec
+	case 33:
+		if d%2 == 0 {
+			return tP32
+		}
+		return types.NewPointer(tI1)
+	}
+	return types.Void
+}
+
 func (mc *machine) nameInst(f *mfunc, in ir.Instruction, name string) {
 	if name == "" {
 		return
@@ -513,7 +611,7 @@ func (mc *machine) nameInst(f *mfunc, in ir.Instruction, name string) {
 	if !ok {
 		return
 	}
-	if n.Type().Equal(types.Void) {
+	if mc.typeOf(n).Equal(types.Void) {
 		return
 	}
 	n.SetName(mc.uniq(f.lnames, name))
@@ -608,7 +706,7 @@ func (mc *machine) exec1(s Step) bool {
 			st.Opaque = true
 			t = st
 		}
-		if s.K%5 == 3 {
+		if s.K%5 == 3 && mc.illFormed {
 			// An identified struct type used by a global without being added to
 			// m.TypeDefs (legal through the API; the definition is simply absent).
 			st := types.NewStruct(types.I64, types.I1)
@@ -624,6 +722,9 @@ func (mc *machine) exec1(s Step) bool {
 		}
 		return true
 	case "setfield":
+		if !mc.illFormed && s.K%6 < 2 {
+			return false // address spaces assigned after construction give inconsistent IR
+		}
 		switch s.K % 6 {
 		case 0:
 			if len(mc.globals) == 0 {
@@ -763,11 +864,13 @@ func (mc *machine) exec1(s Step) bool {
 			callee := mc.fn(s.C)
 			var args []value.Value
 			for i, p := range callee.f.Params {
-				args = append(args, mc.pick(f, p.Type(), s.D+i))
+				args = append(args, mc.pick(f, p.Typ, s.D+i))
 			}
 			b1, b2 := mc.block(f, s.D), mc.block(f, s.D+3)
 			inv := ir.NewInvoke(callee.f, args, b1, b2)
-			if s.Name != "" && !inv.Type().Equal(types.Void) {
+			mc.vtype[inv] = callee.f.Sig.RetType
+			mc.born[inv] = mc.stepNo
+			if s.Name != "" && !callee.f.Sig.RetType.Equal(types.Void) {
 				inv.SetName(mc.uniq(f.lnames, s.Name))
 			}
 			t = inv
@@ -814,7 +917,7 @@ func (mc *machine) exec1(s Step) bool {
 				return false
 			}
 			n, ok := b.Insts[s.C%len(b.Insts)].(value.Named)
-			if !ok || n.Type().Equal(types.Void) {
+			if !ok || mc.typeOf(n).Equal(types.Void) {
 				return false
 			}
 			mc.renameProbe(n.Name() == "" || isUnnamed(n), s.Name == "")
@@ -826,7 +929,7 @@ func (mc *machine) exec1(s Step) bool {
 				return false
 			}
 			inv, ok := b.Term.(*ir.TermInvoke)
-			if !ok || inv.Type().Equal(types.Void) {
+			if !ok || mc.typeOf(inv).Equal(types.Void) {
 				return false
 			}
 			inv.SetName(mc.uniq(f.lnames, s.Name))
@@ -878,6 +981,34 @@ func (mc *machine) exec1(s Step) bool {
 		}
 		mc.probes["phi incoming replaced or appended"]++
 		return true
+	case "setgep":
+		// Flip the field index of a struct getelementptr of the function (its
+		// result type depends on the value of that constant).
+		f := mc.fn(s.A)
+		if f == nil {
+			return false
+		}
+		var geps []*ir.InstGetElementPtr
+		for _, b := range f.f.Blocks {
+			for _, in := range b.Insts {
+				if isStructGEP(in) {
+					geps = append(geps, in.(*ir.InstGetElementPtr))
+				}
+			}
+		}
+		if len(geps) == 0 {
+			return false
+		}
+		g := geps[s.B%len(geps)]
+		ops := g.Operands()
+		cur, _ := (*ops[2]).(*constant.Int)
+		nv := int64(1)
+		if cur != nil && cur.X.Int64() == 1 {
+			nv = 0
+		}
+		*ops[2] = constant.NewInt(tI32, nv)
+		mc.probes["field index of a struct getelementptr replaced"]++
+		return true
 	case "setop":
 		// Replace one operand of an instruction or terminator, through the live
 		// operand view, by another value of the same type from the same function.
@@ -902,12 +1033,20 @@ func (mc *machine) exec1(s Step) bool {
 			return false
 		}
 		old := *op
-		t := old.Type()
+		t := mc.typeOf(old)
 		var repl value.Value
 		switch {
+		case isStructGEP(user) && s.D%len(ops) == 2:
+			// The field index of a struct getelementptr stays a valid constant (the
+			// result type depends on its value).
+			repl = constant.NewInt(tI32, int64(s.P%2))
+			if ci, ok := old.(*constant.Int); ok && ci.X.Int64() == int64(s.P%2) {
+				return false
+			}
+			mc.probes["field index of a struct getelementptr replaced"]++
 		case t.Equal(types.Label):
 			repl = mc.block(f, s.P)
-		case s.K%6 == 5 && (t.Equal(tI32) || t.Equal(tI64)):
+		case mc.illFormed && s.K%6 == 5 && (t.Equal(tI32) || t.Equal(tI64)):
 			// An operand of ANOTHER integer type (ill-typed IR, but a legal use of
 			// the operand view): whatever an instruction caches about its operand
 			// types must not depend on when it was first asked.
@@ -923,8 +1062,15 @@ func (mc *machine) exec1(s Step) bool {
 		if repl == nil || repl == old {
 			return false
 		}
-		if uv, ok := user.(value.Value); ok && repl == uv {
-			return false // an instruction must not become its own operand here
+		if uv, ok := user.(value.Value); ok {
+			if repl == uv {
+				return false // an instruction must not become its own operand here
+			}
+			if _, isPhi := user.(*ir.InstPhi); !isPhi {
+				if b, has := mc.born[repl]; has && b >= mc.born[uv] {
+					return false // only older values: no cycles outside phi
+				}
+			}
 		}
 		*op = repl
 		// bookkeeping of uses
@@ -1231,6 +1377,7 @@ func (mc *machine) observe(o Obs) (applied bool, bad string) {
 // module and the machine (for handles).
 func runProgramAlone(p *Prog) (m *ir.Module, mc *machine, err error) {
 	mc = newMachine()
+	mc.illFormed = p.IllFormed
 	if pan, msg := protect(func() {
 		for _, s := range p.Steps {
 			mc.exec(s)
